@@ -34,7 +34,10 @@ try:
                 sh('git cherry-pick --abort; git reset -q --hard', wt)
                 print('CONFLICT', f, 'base', b[:7]); failed+=1; done=True; break
             rc,diff=sh('git diff --cached HEAD', wt)
+            brc,bout=sh('GOFLAGS=-mod=mod GOPROXY=off go build ./... 2>&1 | head -3', wt)
             sh('git reset -q --hard', wt)
+            if bout.strip():
+                print('DOES-NOT-BUILD', f, bout.strip()[:120]); failed+=1; done=True; break
             open(f,'w').write(header+diff)
             print('rebased ', f, 'from', b[:7]); rebased+=1; done=True; break
         if not done:
